@@ -83,6 +83,8 @@ def run(ck: Check):
                  # logits / temperature overflows the float range: softmax(inf, ...) is NaN unless the maximum is subtracted first
                  ("residual-init-T1e-38", None, 1e-38), ("ordinary-logits-T1.2e-38", {4: 1.5, 11: -0.5, 6: 1.25}, 1.2e-38),
                  # a positive temperature below the smallest positive binary32 number is rounded to 0 when it meets the logits (F65)
+                 # every neuron its own logits (the largest logit differs from neuron to neuron and from the tensor's maximum)
+                 ("random-logits-T1e-38", "random", 1e-38), ("random-logits-T3e-39", "random", 3e-39),
                  ("residual-init-T1e-46", None, 1e-46), ("ordinary-logits-T1e-300", {4: 1.5, 11: -0.5, 6: 1.25}, 1e-300),
                  ("ordinary-logits-T5e-324", {1: 0.25, 14: 2.0}, 5e-324)]
     for name, logits, tau in tie_cases:
@@ -97,7 +99,11 @@ def run(ck: Check):
                         temperature=tau)
                 ws = [w for level in l.tree_weights for w in level]
                 xb = torch.tensor(nets.all_rows(9), dtype=torch.float32).reshape(-1, 1, 3, 3)
-            if logits is not None:
+            if logits == "random":
+                with torch.no_grad():
+                    for w in ws:
+                        w.copy_(torch.randn_like(w) * 3)
+            elif logits is not None:
                 with torch.no_grad():
                     for w in ws:
                         w.zero_()
